@@ -25,6 +25,7 @@ def terms_for(tier):
     out = [(t, "T1") for t in G.tier1()] + [(t, "T2") for t in G.tier2()] + [(t, "T3") for t in G.tier3()] + [(t, "T4") for t in G.tier4()]
     # every non-seeking context-free T1/T2 term also inside the streaming implementation of the bit/byte transforms
     out += [(h, "TSt") for h in G.streaming_terms(2)]
+    out += [(t, "T4q") for t in G.sequence_twins()]
     if tier == "thorough":
         out += [(t, "T5") for t in G.tier5()]
     return out
@@ -180,6 +181,16 @@ def drop_derived(t, v):
             if n is not None and n in v:
                 for sub in drop_derived(s, v[n]):
                     out.append(dict(v, **{n: sub}))
+    elif k == "Sequence" and isinstance(v, list) and len(v) == len(t[1]):
+        # a list cannot omit a member: the derived ones are given as None instead
+        idx = [i for i, (n, s) in enumerate(t[1]) if s[0] in DERIVED or s[0] == "Default"]
+        for i in idx:
+            out.append(v[:i] + [None] + v[i + 1:])
+        if len(idx) > 1:
+            out.append([None if i in idx else x for i, x in enumerate(v)])
+        for i, (n, s) in enumerate(t[1]):
+            for sub in drop_derived(s, v[i]):
+                out.append(v[:i] + [sub] + v[i + 1:])
     elif k in ("Array", "PrefixedArray", "GreedyRange", "RepeatUntil") and isinstance(v, list) and v:
         s = t[2] if k != "GreedyRange" else t[1]
         for sub in drop_derived(s, v[0]):
